@@ -5,7 +5,7 @@
    CNAME/other-data exclusivity.  Proofs: Proofs/Txn*.v. *)
 From DV Require Import Base.Prelude Model.NameM Model.TxnM.
 From DV Require Import Proofs.NameValid Proofs.TxnName Proofs.TxnStore Proofs.TxnLow Proofs.TxnSim Proofs.TxnThm
-                       Proofs.TxnIrrel Proofs.TxnSpec Proofs.TxnInv Proofs.TxnItems Proofs.TxnAbs Proofs.TxnHeap Proofs.TxnCount Proofs.TxnObj.
+                       Proofs.TxnIrrel Proofs.TxnSpec Proofs.TxnInv Proofs.TxnItems Proofs.TxnAbs Proofs.TxnHeap Proofs.TxnCount Proofs.TxnObj Proofs.TxnObjR.
 Open Scope Z_scope.
 
 (* Any history of transactions - every operation and argument form, manual commit/rollback or with-block,
@@ -137,6 +137,20 @@ Theorem commit_never_mutates_objects :
   (forall i, (i < length (ov_nh v))%nat -> nth i nh' [] = nth i (ov_nh v) []).
 Proof. exact publish_never_mutates. Qed.
 Print Assumptions commit_never_mutates_objects.
+
+(* the rdataset-object model refines the value-level model: same result for every call of every history
+   (iterate calls included), for plain, versioned and B-tree style commits alike, and the published objects
+   dereference to the published value (`published_objects_dereference_to_the_value`) *)
+Theorem rdataset_object_level_refines_value_level :
+  forall c h oz z, Forall spec_items_wf h -> RPo oz z ->
+  Forall2 ROuto (obj_hist c h oz) (impl_hist c h z).
+Proof. exact obj_refines_value. Qed.
+Print Assumptions rdataset_object_level_refines_value_level.
+
+Theorem published_objects_dereference_to_the_value :
+  forall oz z, RPo oz z -> z = oderef oz.
+Proof. exact RPo_oderef. Qed.
+Print Assumptions published_objects_dereference_to_the_value.
 
 (* the object-level model refines the value-level model that `refines` is about: same results for every
    call, and the published objects dereference to the published value *)
@@ -478,3 +492,6 @@ Example ex_obj_run :
   exists t', o_final ex_cfg [ODelete [AName ex_www_abs; AInt 1]] ([mkRobj ex_a false], [[0%nat]], [(ex_www, 0%nat)])
                      (o_open 0 ([mkRobj ex_a false], [[0%nat]], [(ex_www, 0%nat)])) = Some t'.
 Proof. split; [vm_compute; reflexivity|]. eexists. vm_compute. reflexivity. Qed.
+
+Example ex_obj_related : RPo ([], [], []) [].
+Proof. apply RPo_empty. Qed.
